@@ -214,7 +214,7 @@ func cmdCheck(args []string) int {
 	runtime.GOMAXPROCS(2*nw + 4)
 	budget := cfg.QuickSecs
 	if budget == 0 {
-		budget = 120
+		budget = 240
 	}
 	if tierN == 1 {
 		budget = cfg.ThoroughSecs
